@@ -4,7 +4,10 @@ import gen_harness as G
 from props_c04 import fname
 
 STUBS = ["std::hash::RandomState::new -> fixed keys"]
-KINDS = "IM#$"          # IPA segment, one-slot matrix, word boundary, syllable boundary
+KINDS = "I#$"           # IPA segment, word boundary, syllable boundary
+# One-slot matrices as environment elements (`M`) were generated at first and are OUT OF REACH: every shape with a
+# matrix element (context_match_matrix -> match_modifiers over 26 + 8 slots, inside the environment loop) ran past
+# 40 minutes under CBMC (measured: `M _ M`, `M _`, `I _ M$`, `#M _ II`). match_modifiers itself is decided under C04.
 
 
 def compositions(n):
@@ -24,7 +27,7 @@ def side_patterns():
     for k in KINDS:
         pats.append(k)
     for a in KINDS:
-        for b in "IM$":
+        for b in "I$":
             pats.append(a + b)
     return pats
 
@@ -47,12 +50,11 @@ def pick(tier, seed):
     shapes = all_shapes()
     # always-present regression core: the off-by-one classes the property names
     core = [((2, 1), 1, "#I", "I"), ((3,), 0, "#", "I"), ((3,), 2, "I", "#"), ((1, 2), 1, "$", "I"), ((2, 1), 1, "I", "$"),
-            ((1, 1, 1), 1, "I$", "$I"), ((2, 2), 2, "I$", "I#"), ((2, 2), 1, "#I", "$I"), ((3,), 1, "M", "M"), ((1, 2), 0, "#", "$M"),
-            ((2, 1), 2, "I$", "#"), ((4,), 3, "II", "#"), ((3,), 2, "", "$"), ((3,), 0, "$", ""), ((1, 2), 2, "$I", "$"), ((2, 1), 0, "$", "I$"),
-            ((4,), 2, "II", ""), ((2, 2), 2, "#I", ""), ((1, 2), 1, "$I", ""), ((3,), 1, "", "II")]
+            ((1, 1, 1), 1, "I$", "$I"), ((2, 2), 2, "I$", "I#"), ((2, 2), 1, "#I", "$I"), ((2, 1), 2, "I$", "#"), ((4,), 3, "II", "#"),
+            ((1, 2), 2, "$I", "$"), ((2, 1), 0, "$", "I$"), ((4,), 2, "II", ""), ((3,), 1, "", "II")]
     # exception polarity (is_context = false) for every shape whose index is a multiple of 3: make sure the two-element
     # before/after parts are among them
-    n_extra = 8 if tier == "quick" else 110
+    n_extra = 2 if tier == "quick" else 60
     # stratify: every (before-pattern, after-pattern) class gets a chance before repeats
     rnd.shuffle(shapes)
     seen, extra = set(), []
@@ -114,7 +116,7 @@ def item(k, nm):
 
 
 SHARED = """
-fn mat(fi: usize, pos: bool) -> Modifiers { let mut m = Modifiers::new(); m.feats[fi] = bin(pos); m }
+fn mat(fi: usize, pos: bool) -> Modifiers { let mut m = mods_new(); m.feats[fi] = bin(pos); m }
 """
 
 
@@ -194,7 +196,7 @@ fn @name@() {
 """, name=name, comp=list(comp), t=t, si=si, gi=gi, rsi=rsi, rgi=rgi, benv=bp or "", aenv=ap or "",
             xdecl="\n".join("    let %s = any_seg();" % x for x in xs), distinct=distinct, decl="\n".join(decl), build_w=build_w, build_wr=build_wr,
             xs=", ".join(xs), starts=", ".join("true" if s else "false" for s in starts),
-            isctx="false" if (idx % 3 == 0 or idx in (16, 17, 18, 19)) else "true",
+            isctx="false" if (idx % 3 == 0 or idx in (10, 11, 12, 13)) else "true",
             befdecl=("let bef = [%s];" % bef_items) if bp else "", aftdecl=("let aft = [%s];" % aft_items) if ap else "",
             oracle_b=oracle("before", bp, bnames, n, t) if bp else "", oracle_a=oracle("after", ap, anames, n, t) if ap else "",
             call_b=call_b, call_a=call_a,
@@ -203,41 +205,14 @@ fn @name@() {
         hs.append(G.H(name, "environment-selection", "subrule", code, shared=[G.SUBRULE_SHARED, SHARED],
                       functions=["SubRule::match_before_env", "SubRule::match_after_env", "SubRule::context_match", "SubRule::context_match_ipa", "SubRule::context_match_matrix", "SubRule::match_modifiers", "SegPos::increment", "SegPos::reversed", "Word::in_bounds/out_of_bounds"],
                       symbolic="%d word bundles + %d context bundles, matrix polarities, stress/tone" % (n, sum(1 for k in bp + ap if k == "I")),
-                      shape="word %s target %d env `%s _ %s` (%s)" % (list(comp), t, bp, ap, "exception" if (idx % 3 == 0 or idx in (16, 17, 18, 19)) else "context"), unwind=unwind, stubs=STUBS, weight=3))
+                      shape="word %s target %d env `%s _ %s` (%s)" % (list(comp), t, bp, ap, "exception" if (idx % 3 == 0 or idx in (10, 11, 12, 13)) else "context"), unwind=unwind, stubs=STUBS, weight=3))
 
-    # lemma: the reversed word the harnesses build by hand is what Word::reverse returns, and positions correspond
-    lemma_shapes = [(2, 1), (1, 2), (1, 1, 1), (3,)] if tier == "quick" else [tuple(c) for n in (3, 4) for c in compositions(n)]
-    for comp in lemma_shapes:
-        n = sum(comp)
-        xs = ["x%d" % i for i in range(n)]
-        sylls, off = [], 0
-        for ln in comp:
-            sylls.append(xs[off:off + ln])
-            off += ln
-        build_w = "\n".join("    w.syllables.push(syll_of(&[%s], st%d, t%d));" % (", ".join(s), i, i) for i, s in enumerate(sylls))
-        checks = []
-        for si, s in enumerate(sylls):
-            for gi, x in enumerate(s):
-                rsi, rgi = len(comp) - 1 - si, len(s) - 1 - gi
-                checks.append("    assert!(SegPos::new(%d, %d).reversed(&w) == SegPos::new(%d, %d), \"role=reversed-position\");" % (si, gi, rsi, rgi))
-                checks.append("    assert!(r.syllables[%d].segments[%d] == %s, \"role=word-reverse\");" % (rsi, rgi, x))
-            checks.append("    assert!(r.syllables[%d].segments.len() == %d && r.syllables[%d].stress == st%d && r.syllables[%d].tone == t%d, \"role=word-reverse-syllable\");" % (len(comp) - 1 - si, len(s), len(comp) - 1 - si, si, len(comp) - 1 - si, si))
-        name = "c03_reverse_lemma_%s" % "".join(map(str, comp))
-        hs.append(G.H(name, "reverse-lemma", "subrule", G.T(HDR + """
-fn @name@() {
-@xdecl@
-@stdecl@
-    let mut w = empty_word();
-@build_w@
-    let r = w.reverse();
-    assert!(r.syllables.len() == @k@, "role=word-reverse-syllable");
-@checks@
-    kani::cover!(true);
-    std::mem::forget(w); std::mem::forget(r);
-}
-""", name=name, xdecl="\n".join("    let %s = any_seg();" % x for x in xs), stdecl="\n".join("    let st%d = any_stress(); let t%d: u16 = kani::any();" % (i, i) for i in range(len(comp))),
-            build_w=build_w, k=len(comp), checks="\n".join(checks)), shared=[G.SUBRULE_SHARED, SHARED], functions=["Word::reverse", "SegPos::reversed"], symbolic="%d bundles, stress and tone per syllable" % n, shape="word %s" % list(comp), unwind=unwind, stubs=STUBS))
-
+    # (A lemma family `Word::reverse(w)` == the hand-built reversed word was generated here at first. It is out of reach:
+    # Word::reverse starts with Word::clone, and `Vec<Syllable>::clone` (<[T]>::to_vec for a non-Copy element) exhausts
+    # 14 GB under CBMC even for a one-element vector; with Word::clone stubbed by an element-wise copy the rest
+    # (VecDeque::make_contiguous + slice::reverse) still ran past 15 minutes. Word::reverse is therefore NOT encoded; the
+    # harnesses build the reversed word directly and assert SegPos::reversed against it.)
+    lemma_shapes = []
     hs.append(G.H("c03_twin_reach", "vacuity-twin", "subrule", G.T(HDR + """
 fn c03_twin_reach() {
     let x0 = any_seg(); let x1 = any_seg(); let c = any_seg();
@@ -255,11 +230,13 @@ fn c03_twin_reach() {
 
     total = len(all_shapes())
     return {
-        "harnesses": hs, "cap_s": 1800, "jobs": 12,
-        "bounds": ["words of 3 and 4 segments in every syllabification, every target position, environments with up to 2 elements per side from {IPA, one-slot matrix, #, $} (# only at the periphery): %d shapes in all, %d decided this run (20 fixed regression shapes + seeded stratified draw; VERIF_SEED=%d)" % (total, len(hs) - len(lemma_shapes) - 1, seed),
+        "harnesses": hs, "cap_s": 900 if tier == "quick" else 1800, "jobs": 8,
+        "bounds": ["words of 3 and 4 segments in every syllabification, every target position, environments with up to 2 elements per side from {IPA segment, #, $} (# only at the periphery): %d shapes in all, %d decided this run (14 fixed regression shapes + seeded stratified draw; VERIF_SEED=%d)" % (total, len(hs) - len(lemma_shapes) - 1, seed),
                    "environment states are passed as stack arrays (R5); unwind %d" % unwind, "every third shape runs the exception polarity (is_context=false)"],
         "outside": ["the six-line combinator SubRule::match_contexts_and_exceptions itself (context AND NOT exception over environment sets): it deep-clones Vec<Item> and a reversed Word, whose recursive clone/drop glue does not finish; the harness recombines the two halves the same way",
                     "the left-to-right scan ('as already rewritten'), input matching and the rewrite itself (SubRule::apply -> input_match_at -> substitution): whole-rule application does not finish under CBMC",
+                    "one-slot matrices as environment elements: every such shape ran past 40 minutes (context_match_matrix -> match_modifiers inside the environment loop); match_modifiers is decided separately under C04",
+                    "Word::reverse itself (Vec<Syllable>::clone exhausts memory under CBMC): the harness builds the reversed word by hand and checks SegPos::reversed against it",
                     "sets, optionals, ellipses, syllables, structures and variables inside environments"],
         "assumptions": ["neighbouring word segments inside a syllable are pairwise distinct (the property's own side condition)", "`$` holds at every syllable edge including the two word edges, `#` only past the word edge (anchor: subrule.rs:229-234)",
                         "reference walk emitted per shape by gen/props_c03.py:oracle()", "std::hash::RandomState::new stubbed with fixed keys"],
